@@ -181,6 +181,9 @@ func (l *FakeListener) SetRaceConn(c net.Conn) {
 	l.mu.Unlock()
 }
 
+// Pending returns the number of queued items Accept has not consumed yet.
+func (l *FakeListener) Pending() int { return len(l.ch) }
+
 // Blocked reports whether an Accept call is currently waiting.
 func (l *FakeListener) Blocked() bool { return atomic.LoadInt32(&l.acceptsIn) > 0 }
 
@@ -233,6 +236,7 @@ type OpResult struct {
 // Invocation is one logged handler invocation.
 type Invocation struct {
 	ConnKey  string
+	connRef  varlink.ReadWriterContext // keeps the connection object alive so that ConnKey (its address) stays unique
 	Iface    string
 	Method   string
 	More     bool
@@ -301,7 +305,7 @@ func errStr(err error) string {
 
 // VarlinkDispatch implements the varlink dispatcher interface.
 func (s *ScriptIface) VarlinkDispatch(ctx context.Context, c varlink.Call, methodname string) error {
-	inv := &Invocation{ConnKey: fmt.Sprintf("%p", c.Conn), Iface: s.Name, Method: methodname,
+	inv := &Invocation{ConnKey: fmt.Sprintf("%p", c.Conn), connRef: c.Conn, Iface: s.Name, Method: methodname,
 		More: c.WantsMore(), Oneway: c.IsOneway(), Upgrade: c.WantsUpgrade(), Enter: s.Log.next(), Conn: -1, ID: -1}
 	if c.Request != nil {
 		inv.Request = append([]byte(nil), (*c.Request)...)
